@@ -2,6 +2,7 @@ package main
 
 import (
 	"fmt"
+	"regexp"
 	"strings"
 )
 
@@ -14,12 +15,66 @@ type schemaDoc struct {
 	nextID       uint32
 }
 
-func (d *schemaDoc) id() string { d.nextID++; return fmt.Sprintf("%08x", 0x10000000+d.nextID*0x01010101) }
+func (d *schemaDoc) id() string {
+	d.nextID++
+	return fmt.Sprintf("%08x", 0x10000000+d.nextID*0x01010101)
+}
 func (d *schemaDoc) typ(format string, a ...any) {
 	d.types = append(d.types, strings.Replace(fmt.Sprintf(format, a...), "#ID", "#"+d.id(), 1))
 }
 func (d *schemaDoc) fn(format string, a ...any) {
 	d.funcs = append(d.funcs, strings.Replace(fmt.Sprintf(format, a...), "#ID", "#"+d.id(), 1))
+}
+
+var defRe = regexp.MustCompile(`^([A-Za-z][A-Za-z0-9_.]*)#[0-9a-f]+ .*= ([A-Za-z][A-Za-z0-9_.]*);$`)
+
+// applyUnique applies a feature and then renames every constructor and type the feature itself defined with a
+// suffix unique to the feature, so that any two features can be combined in one schema.
+func (d *schemaDoc) applyUnique(f feature, idx int) {
+	nt, nf := len(d.types), len(d.funcs)
+	before := map[string]bool{}
+	for _, l := range append(append([]string{}, d.types...), d.funcs...) {
+		if m := defRe.FindStringSubmatch(l); m != nil {
+			before[m[1]], before[m[2]] = true, true
+		}
+	}
+	f.apply(d)
+	sfx := fmt.Sprintf("F%d", idx)
+	var mine []*string
+	for i := range d.types {
+		if i >= nt || !beforeLine(d.types[i], before) {
+			mine = append(mine, &d.types[i])
+		}
+	}
+	for i := nf; i < len(d.funcs); i++ {
+		mine = append(mine, &d.funcs[i])
+	}
+	names := map[string]bool{}
+	for _, l := range mine {
+		if m := defRe.FindStringSubmatch(*l); m != nil {
+			for _, n := range []string{m[1], m[2]} {
+				if !before[n] && n != "Bool" && n != "int" && n != "long" && n != "string" && !strings.HasPrefix(n, "Vector") {
+					names[n] = true
+				}
+			}
+		}
+	}
+	for n := range names {
+		re := regexp.MustCompile(`(^|[ :<?])` + regexp.QuoteMeta(n) + `([#;> ]|$)`)
+		for _, l := range mine {
+			if strings.HasPrefix(*l, "//") {
+				continue
+			}
+			for k := 0; k < 3; k++ { // overlapping matches
+				*l = re.ReplaceAllString(*l, "${1}"+n+sfx+"${2}")
+			}
+		}
+	}
+}
+
+func beforeLine(l string, before map[string]bool) bool {
+	m := defRe.FindStringSubmatch(l)
+	return m == nil || before[m[1]]
 }
 
 func (d *schemaDoc) text(crlf bool) string {
@@ -46,6 +101,7 @@ func base() *schemaDoc {
 }
 
 type feature struct {
+	idx   int
 	name  string
 	apply func(d *schemaDoc)
 	crlf  bool
@@ -63,7 +119,9 @@ func features() []feature {
 	for _, p := range []string{"int", "long", "double", "string", "bytes", "Bool"} {
 		p := p
 		add("param:"+p, func(d *schemaDoc) { d.typ("holder%s#ID a:%s b:int = Holder%s;", strings.Title(p), p, strings.Title(p)) })
-		add("param:Vector<"+p+">", func(d *schemaDoc) { d.typ("vecHolder%s#ID a:Vector<%s> = VecHolder%s;", strings.Title(p), p, strings.Title(p)) })
+		add("param:Vector<"+p+">", func(d *schemaDoc) {
+			d.typ("vecHolder%s#ID a:Vector<%s> = VecHolder%s;", strings.Title(p), p, strings.Title(p))
+		})
 	}
 	add("param:Vector<struct>", func(d *schemaDoc) { d.typ("poly#ID pts:Vector<Point> = Poly;") })
 	add("param:Vector<interface>", func(d *schemaDoc) { d.typ("scene#ID shapes:Vector<Shape> = Scene;") })
